@@ -1,7 +1,10 @@
 ----------------------------- MODULE FramingTrace ---------------------------
 (* C02, client side: the real client.__next__ fed a reply octet stream in arbitrary chunks (then end-of-stream) must    *)
 (* return exactly the frames the encapsulation headers delimit (24 + declared length octets each), in order.            *)
-(*   {"stream": octets, "got": [[command, sender context octets], ...], "end": "stop" | "error"}                        *)
+(*   {"stream": octets, "got": [[command, sender context octets], ...], "end": "stop" | "error",                        *)
+(*    "when": [octets received when message k was returned], "cuts": [cumulative chunk ends], "late": k returned only after  *)
+(*    end-of-stream had been seen (0: none)}                                                                                *)
+(* A message is returned as soon as its last octet has been received: not only after later octets (or the end) arrive.      *)
 EXTENDS CIPWire, Json, IOUtils, TLC
 Traces == ndJsonDeserialize(IOEnv.TRACE_FILE)
 VARIABLE t
@@ -16,7 +19,15 @@ Frames(s, at) == IF Len(s) < at + 24 THEN <<>>
                       ELSE << <<LE(SubSeq(s, at + 1, at + 2)), SubSeq(s, at + 13, at + 20)>> >> \o Frames(s, at + n)
 RECURSIVE Consumed(_, _)
 Consumed(s, at) == IF Len(s) < at + 24 \/ Len(s) < at + FrameLen(s, at) THEN at ELSE Consumed(s, at + FrameLen(s, at))
+RECURSIVE Ends(_, _)
+\* end offsets of the complete frames
+Ends(s, at) == IF Len(s) < at + 24 \/ Len(s) < at + FrameLen(s, at) THEN <<>> ELSE <<at + FrameLen(s, at)>> \o Ends(s, at + FrameLen(s, at))
+\* the first chunk boundary at or after offset e: the octets received when the frame ending at e became complete
+FirstCut(e) == LET ok == { k \in 1 .. Len(X.cuts) : X.cuts[k] >= e } IN X.cuts[CHOOSE k \in ok : \A j \in ok : k <= j]
+Prompt == /\ X.late = 0
+          /\ \A k \in 1 .. Len(X.when) : k <= Len(Ends(X.stream, 0)) => X.when[k] = FirstCut(Ends(X.stream, 0)[k])
 Why == IF X.got # Frames(X.stream, 0) THEN "messages-differ-from-frame-boundaries"
+       ELSE IF ~Prompt THEN "complete-message-returned-only-after-later-input"
        ELSE IF Consumed(X.stream, 0) = Len(X.stream) /\ X.end # "stop" THEN "clean-end-of-stream-reported-as-error"
        ELSE IF Consumed(X.stream, 0) # Len(X.stream) /\ X.end = "stop" THEN "partial-frame-at-end-not-reported" ELSE "ok"
 Verdict == Why = "ok" \/ PrintT(ToJson([tid |-> t, why |-> Why]))
